@@ -10,26 +10,34 @@ import (
 
 // C06: at most one inter-node hop; local upstreams preferred. Component
 // cluster of N real proxy servers + managers + routing tables; every belief
-// matrix x placement x entry node x route x forwarded flag.
+// matrix x placement (none / healthy / announced go-away) x entry node x route
+// x forward-header variant.
 
 type c06Case struct {
 	N       int    `json:"nodes"`
 	Beliefs int    `json:"beliefs"`   // bit (i*N+j): node i believes node j serves E
-	Place   int    `json:"placement"` // bit i: node i really has an upstream for E
+	Place   int    `json:"placement"` // base-3 digit i: 0 none, 1 healthy upstream, 2 upstream that announced go-away
 	Entry   int    `json:"entry"`
-	Mode    string `json:"mode"` // header | tcp
-	Forward bool   `json:"already_forwarded"`
+	Mode    string `json:"mode"`    // header | tcp
+	Forward string `json:"forward"` // value of the x-piko-forward header sent by the client: "" (absent), "true", "false"
+}
+
+func (c c06Case) place(i int) int {
+	p := c.Place
+	for k := 0; k < i; k++ {
+		p /= 3
+	}
+	return p % 3
 }
 
 type c06World struct {
 	n   int
 	cl  *e4.CompCluster
 	ups []*e4.StampUpstream
-	has []bool
 }
 
 func newC06World(n int) *c06World {
-	w := &c06World{n: n, cl: e4.NewCompCluster(n, e4.DefaultProxyConfig(), nil), has: make([]bool, n)}
+	w := &c06World{n: n, cl: e4.NewCompCluster(n, e4.DefaultProxyConfig(), nil)}
 	for i := 0; i < n; i++ {
 		w.ups = append(w.ups, &e4.StampUpstream{Endpoint: "e1", Name: fmt.Sprintf("u%d", i), Node: fmt.Sprintf("n%d", i)})
 	}
@@ -38,13 +46,12 @@ func newC06World(n int) *c06World {
 
 func (w *c06World) configure(c c06Case) {
 	for i := 0; i < w.n; i++ {
-		want := c.Place&(1<<uint(i)) != 0
-		if want && !w.has[i] {
+		// removal is idempotent; the proxy itself removes an upstream that said go-away
+		w.cl.Nodes[i].Mgr.RemoveConn(w.ups[i])
+		w.ups[i].Gone.Store(c.place(i) == 2)
+		if c.place(i) != 0 {
 			w.cl.Nodes[i].Mgr.AddConn(w.ups[i])
-		} else if !want && w.has[i] {
-			w.cl.Nodes[i].Mgr.RemoveConn(w.ups[i])
 		}
-		w.has[i] = want
 		for j := 0; j < w.n; j++ {
 			if i == j {
 				continue
@@ -65,9 +72,12 @@ func (w *c06World) run(c c06Case) (sig, msg string) {
 	for _, n := range w.cl.Nodes {
 		perNode = append(perNode, n.Accepts.Load())
 	}
-	res := e4.Do(w.cl.Nodes[c.Entry].Addr, e4.Addressing{Mode: c.Mode, Endpoint: "e1", Forward: c.Forward})
+	a := e4.Addressing{Mode: c.Mode, Endpoint: "e1"}
+	if c.Forward != "" {
+		a.Extra = map[string]string{"x-piko-forward": c.Forward}
+	}
+	res := e4.Do(w.cl.Nodes[c.Entry].Addr, a)
 	hops := w.cl.TotalAccepts() - before
-	entryHas := c.Place&(1<<uint(c.Entry)) != 0
 	okStatus := 200
 	if c.Mode == "tcp" {
 		okStatus = 101
@@ -85,13 +95,24 @@ func (w *c06World) run(c c06Case) (sig, msg string) {
 	if hops > 2 {
 		return "more-than-one-hop", desc
 	}
-	if entryHas {
+	switch c.place(c.Entry) {
+	case 1:
 		if hops != 1 || res.Status != okStatus || res.Node != fmt.Sprintf("n%d", c.Entry) {
 			return "local-upstream-not-preferred", desc
 		}
 		return "", ""
+	case 2:
+		// the local upstream announced go-away: the request fails here, it is
+		// not retried on another node
+		if hops != 1 {
+			return "forwarded-despite-local-upstream", desc
+		}
+		if res.Status != 502 {
+			return "unexpected-status", desc
+		}
+		return "", ""
 	}
-	if c.Forward {
+	if c.Forward == "true" {
 		if hops != 1 {
 			return "forwarded-request-forwarded-again", desc
 		}
@@ -116,17 +137,22 @@ func (w *c06World) run(c c06Case) (sig, msg string) {
 	if hops != 2 {
 		return "did-not-forward-once", desc
 	}
-	if res.Status == okStatus {
-		// served by the node it was forwarded to, which must really have one
-		var target = -1
-		for j := range w.cl.Nodes {
-			if j != c.Entry && w.cl.Nodes[j].Accepts.Load() > perNode[j] {
-				target = j
-			}
+	target := -1
+	for j := range w.cl.Nodes {
+		if j != c.Entry && w.cl.Nodes[j].Accepts.Load() > perNode[j] {
+			target = j
 		}
-		if target < 0 || c.Place&(1<<uint(target)) == 0 || res.Node != fmt.Sprintf("n%d", target) {
+	}
+	if target < 0 {
+		return "did-not-forward-once", desc
+	}
+	if res.Status == okStatus {
+		// served by the node it was forwarded to, which must really have a healthy one
+		if c.place(target) != 1 || res.Node != fmt.Sprintf("n%d", target) {
 			return "served-beyond-first-hop", desc
 		}
+	} else if c.place(target) == 1 {
+		return "second-node-did-not-serve-locally", desc
 	}
 	return "", ""
 }
@@ -141,8 +167,11 @@ func init() {
 			sizes = []int{2, 3, 4}
 		}
 		for _, n := range sizes {
+			places := 1
+			for i := 0; i < n; i++ {
+				places *= 3
+			}
 			for b := 0; b < 1<<uint(n*n); b++ {
-				// skip the diagonal bits
 				diag := false
 				for i := 0; i < n; i++ {
 					if b&(1<<uint(i*n+i)) != 0 {
@@ -152,10 +181,22 @@ func init() {
 				if diag {
 					continue
 				}
-				for p := 0; p < 1<<uint(n); p++ {
+				for p := 0; p < places; p++ {
+					if n == 4 {
+						// 4 nodes: placements without go-away only (3^4 x 2^12 is too many)
+						skip := false
+						for q, i := p, 0; i < n; i, q = i+1, q/3 {
+							if q%3 == 2 {
+								skip = true
+							}
+						}
+						if skip {
+							continue
+						}
+					}
 					for e := 0; e < n; e++ {
 						for _, m := range modes {
-							for _, f := range []bool{false, true} {
+							for _, f := range []string{"", "true", "false"} {
 								cases = append(cases, c06Case{N: n, Beliefs: b, Place: p, Entry: e, Mode: m, Forward: f})
 							}
 						}
@@ -163,12 +204,11 @@ func init() {
 				}
 			}
 		}
-		workers := 8
+		workers := 12
 		ch := make(chan c06Case, 64)
 		var wg sync.WaitGroup
 		var mu sync.Mutex
-		evals := 0
-		distinct := map[string]bool{}
+		evals, nontrivial := 0, 0
 		for k := 0; k < workers; k++ {
 			wg.Add(1)
 			go func() {
@@ -180,26 +220,25 @@ func init() {
 					}
 				}()
 				for c := range ch {
+					if run.Violations() >= 5 {
+						continue
+					}
 					w := worlds[c.N]
 					if w == nil {
 						w = newC06World(c.N)
 						worlds[c.N] = w
 					}
 					sig, msg := w.run(c)
-					if sig == "request-failed" {
-						// transient socket trouble is not believed: retry
-						for r := 0; r < 4 && sig == "request-failed"; r++ {
-							sig, msg = w.run(c)
-						}
+					for r := 0; r < 4 && sig == "request-failed"; r++ {
+						sig, msg = w.run(c)
 					}
 					mu.Lock()
 					evals++
-					// non-trivial: the request had to cross to another node or was refused
-					entryHas := c.Place&(1<<uint(c.Entry)) != 0
-					if !entryHas {
-						distinct[fmt.Sprintf("%d/%d/%d/%d/%s/%v", c.N, c.Beliefs, c.Place, c.Entry, c.Mode, c.Forward)] = true
+					// non-trivial: the entry node cannot simply serve from a healthy local upstream
+					if c.place(c.Entry) != 1 {
+						nontrivial++
 					}
-					if evals%977 == 1 {
+					if evals%4999 == 1 {
 						run.Sample(c)
 					}
 					mu.Unlock()
@@ -215,11 +254,11 @@ func init() {
 		close(ch)
 		wg.Wait()
 		run.Set("evaluations", evals)
-		run.Set("distinct_nontrivial", len(distinct))
-		run.Set("rule", "cross product of all 2^6 belief matrices (who believes whom to serve E) x all 2^3 real placements x entry node x {HTTP, TCP} x {fresh, already forwarded} on 3 real proxy servers (thorough: also 2 and 4 nodes); non-trivial = entry node has no local upstream (the request must be forwarded or refused)")
+		run.Set("distinct_nontrivial", nontrivial)
+		run.Set("rule", "cross product of all 2^6 belief matrices (who believes whom to serve E) x all 3^3 placements (per node: no upstream / healthy upstream / upstream that announced go-away) x entry node x {HTTP, TCP} x x-piko-forward header sent by the client {absent, true, false} on 3 real proxy servers (thorough: also 2 and 4 nodes); every case is distinct; non-trivial = the entry node has no healthy local upstream (the request must be forwarded once, or refused)")
 		run.Set("exhaustive", true)
 		run.Assume("goroutine scheduling inside net/http, gorilla/websocket and the proxies is free-running; the enumerated dimension is the configuration")
-		fmt.Printf("  C06: cases=%d non-trivial=%d\n", evals, len(distinct))
+		fmt.Printf("  C06: cases=%d non-trivial=%d\n", evals, nontrivial)
 		return run.Finish()
 	})
 	replayers["E4-C06"] = func(path string) int {
